@@ -21,6 +21,7 @@ class PTri(Pattern):
         return ("PTri(%s, %s, %s)" % (self.length, self.min, self.max))
 
     def reset(self):
+        super().reset()
         self.phase = 0.0
 
     def __next__(self):
@@ -56,6 +57,7 @@ class PSaw(Pattern):
         self.reset()
 
     def reset(self):
+        super().reset()
         self.phase = 0.0
 
     def __next__(self):
